@@ -25,6 +25,7 @@ type Env struct {
 	derefs map[string]func(*State) Val
 	localsFirst bool // invariants/asserts: a name denotes the current value of the variable
 	inOld  bool
+	applyClo func(name string, args []Val, st *State) (Val, bool) // call(f, args): apply a closure argument
 	oldLocals bool // old() keeps resolving locals (call-site clauses: old = state before the call)
 	loopPre *State // invariants: the state on entry to the loop, for entry(e)
 }
@@ -56,7 +57,7 @@ var basicTypes = map[string]types.Type{
 	"int": types.Typ[types.Int], "int8": types.Typ[types.Int8], "int16": types.Typ[types.Int16], "int32": types.Typ[types.Int32], "int64": types.Typ[types.Int64],
 	"uint": types.Typ[types.Uint], "uint8": types.Typ[types.Uint8], "uint16": types.Typ[types.Uint16], "uint32": types.Typ[types.Uint32], "uint64": types.Typ[types.Uint64],
 	"byte": types.Typ[types.Uint8], "bool": types.Typ[types.Bool], "string": types.Typ[types.String], "uintptr": types.Typ[types.Uintptr],
-	"ref": types.Typ[types.UnsafePointer], "set": types.Typ[types.UnsafePointer],
+	"ref": types.Typ[types.UnsafePointer], "set": types.Typ[types.UnsafePointer], "float32": types.Typ[types.Float32], "float64": types.Typ[types.Float64],
 }
 
 func (e *Env) typeByName(n string) types.Type {
@@ -702,6 +703,19 @@ func (e *Env) call(x *SExpr) Val {
 			skip[a.Name] = true
 		}
 		return Val{T: tBool, S: e.allZero(v.S, stT, skip)}
+	case "call":
+		// call(f, a, ...): value of applying the (side-effect free) closure passed as argument f
+		if len(x.Args) < 1 || x.Args[0].Op != "ident" || e.applyClo == nil {
+			return e.errorf("call(f, args): f must be a closure argument of the callee")
+		}
+		var as []Val
+		for _, a := range x.Args[1:] {
+			as = append(as, e.coerce(e.tr(a), tInt))
+		}
+		if v, ok := e.applyClo(x.Args[0].Name, as, e.state); ok {
+			return v
+		}
+		return e.errorf("call(%s, ...): not a closure literal at this call site", x.Args[0].Name)
 	case "entry":
 		// entry(e): value of e when the loop was entered (only in loop invariants)
 		if e.loopPre == nil {
